@@ -1,8 +1,9 @@
 (* C08 - the cache never leaves stale bindings: success means output is current.
    Only statements, [exact], Examples and [Print Assumptions] live here. *)
-From Coq Require Import String List Arith Bool.
+From Coq Require Import String Ascii List Arith Bool.
 Require Import TT.Model.Str TT.Model.C08Fingerprint TT.Model.C08Run.
 Require Import TT.Proofs.C08RunProofs TT.Proofs.C08FpProofs TT.Proofs.C08Examples.
+Require Import TT.Spec.TsLex TT.Model.C08Text TT.Proofs.C08TextProofs TT.Proofs.C08TextExamples TT.Proofs.C08OracleProofs.
 Require TT.Proofs.RunSpike.
 Import ListNotations.
 
@@ -84,6 +85,119 @@ Theorem C08_repaired_design_sound :
     RunSpike.up_to_date src cfg fname content fpT files st'.
 Proof. exact RunSpike.cache_sound. Qed.
 
+(* ---------------- round 7: the text level ----------------
+   Model/C08Text.v: a project as syntax (the item forms of Model/Pipeline.v), its analysis abs_project into the analysed
+   data the fingerprint is computed from, the projection view_of = the views of the write plan, and the generated text of
+   the text-level generator models (Pipeline.v types.ts / commands.ts token streams in plain mode, PipelineZod.v in zod
+   mode, Events.v events.ts) applied to the items in generation order. *)
+
+(* (a) the generated text is a function of the view: equal views give equal types.ts, commands.ts (both modes) and
+   events.ts - across different projects, configurations and discovery orders *)
+Theorem C08_text_function_of_view : forall w p c w' p' c', view_of w p c = view_of w' p' c' ->
+  types_ts w p c = types_ts w' p' c' /\ commands_ts w p c = commands_ts w' p' c' /\
+  zod_types_ts w p c = zod_types_ts w' p' c' /\ zod_commands_ts w p c = zod_commands_ts w' p' c' /\
+  events_ts w p c = events_ts w' p' c'.
+Proof. exact text_function_of_view. Qed.
+(* the factorisation behind it: the text-level models read the syntax only through the analysed data, sorted as hashed *)
+Theorem C08_types_ts_of_analysis : forall w p c,
+  types_ts w p c = types_toks_a (a_structs_sorted (analyse w (abs_project p))) (a_cmds_sorted (g_ppath c) (analyse w (abs_project p))).
+Proof. exact types_ts_of_analysis. Qed.
+Example C08_ex_views_equal :
+  view_of ex_w01 tp_user ex_tc = view_of ex_w10 tp_lines ex_tc /\ tp_user <> tp_lines /\
+  List.length (types_ts ex_w01 tp_user ex_tc) = 122 /\ commands_ts ex_w01 tp_user ex_tc <> [] /\
+  events_ts ex_w01 tp_user ex_tc <> None.
+Proof. exact ex_views_equal. Qed.
+Example C08_ex_views_equal_zod :
+  view_of ex_w01 tp_user ex_tz = view_of ex_w10 tp_lines ex_tz /\
+  List.length (zod_types_ts ex_w01 tp_user ex_tz) <> 0 /\ List.length (zod_commands_ts ex_w01 tp_user ex_tz) <> 0.
+Proof. exact ex_views_equal_zod. Qed.
+
+(* (b) the fingerprint covers the view: with the one unhashed component (class 8) equal - or the graph off - equal
+   fingerprints give equal views; the text files need no side condition at all *)
+Theorem C08_fp_covers_view : forall w p c w' p' c',
+  fp_t w p c = fp_t w' p' c' -> unhashed_t w p c = unhashed_t w' p' c' -> view_of w p c = view_of w' p' c'.
+Proof. exact fp_covers_view. Qed.
+Theorem C08_fp_covers_view_no_graph : forall w p c w' p' c',
+  fp_t w p c = fp_t w' p' c' -> g_viz c = false -> view_of w p c = view_of w' p' c'.
+Proof. exact fp_covers_view_no_graph. Qed.
+Theorem C08_fp_covers_text : forall w p c w' p' c', fp_t w p c = fp_t w' p' c' ->
+  types_ts w p c = types_ts w' p' c' /\ commands_ts w p c = commands_ts w' p' c' /\
+  zod_types_ts w p c = zod_types_ts w' p' c' /\ zod_commands_ts w p c = zod_commands_ts w' p' c' /\
+  events_ts w p c = events_ts w' p' c' /\ ev_text w p c = ev_text w' p' c' /\ is_zod c = is_zod c'.
+Proof. exact fp_covers_text. Qed.
+Example C08_ex_fp_equal : fp_t ex_w01 tp_user ex_tc = fp_t ex_w10 tp_lines ex_tc /\ g_viz ex_tc = false /\
+  unhashed_t ex_w01 tp_user ex_tc = unhashed_t ex_w10 tp_lines ex_tc.
+Proof. exact ex_fp_equal. Qed.
+
+(* C08_cache_sound composed to text: the same run / cache machine over syntax-level projects whose files hold the text
+   (types.ts and commands.ts in both modes, events.ts in plain mode; views for index.ts, dependency-graph.*, zod events.ts).
+   For every history, a non-forced run that reports success or up to date leaves every file of a forced generation in
+   place with the text of a forced generation - outside class 8; with the graph off there is no class. *)
+Theorem C08_cache_sound_text : forall (ops : list top) (sg0 : tstate * option tgen) (w : sched),
+  InvW_t sg0 ->
+  let sg := fold_left stepG_t ops sg0 in
+  kf_C08_t w sg = [] ->
+  forall r st', run_t w false None (fst sg) = (r, st') -> r = Success \/ r = UpToDate -> up_to_date_t w st'.
+Proof. exact cache_sound_text. Qed.
+Theorem C08_cache_sound_text_no_graph : forall (ops : list top) (sg0 : tstate * option tgen) (w : sched),
+  InvW_t sg0 ->
+  let sg := fold_left stepG_t ops sg0 in
+  g_viz (s_cfg (fst sg)) = false ->
+  forall r st', run_t w false None (fst sg) = (r, st') -> r = Success \/ r = UpToDate -> up_to_date_t w st'.
+Proof. exact cache_sound_text_no_graph. Qed.
+Theorem C08_inv_initial_text : forall p c, InvW_t (init_t p c, None).
+Proof. exact InvW_t_init. Qed.
+Example C08_ex_text_detected :
+  let sg := final_t tp_user ex_tc [Run _ _ _ _ ex_w01 false; SetSrc _ _ _ _ tp_field; Delete _ _ _ _ Types] in
+  kf_C08_t ex_w10 sg = [] /\ g_viz (s_cfg (fst sg)) = false /\ fst (run_t ex_w10 false None (fst sg)) = Success.
+Proof. exact ex_text_detected. Qed.
+Example C08_ex_text_hit :
+  let sg := final_t tp_user ex_tc [Run _ _ _ _ ex_w01 false; SetSrc _ _ _ _ tp_lines] in
+  kf_C08_t ex_w10 sg = [] /\ g_viz (s_cfg (fst sg)) = false /\ fst (run_t ex_w10 false None (fst sg)) = UpToDate.
+Proof. exact ex_text_hit. Qed.
+
+(* the other direction for the edit classes where it is immediate: a changed struct name, field key (field name, rename,
+   effective rename_all) at any position, command name, event name changes the text *)
+Theorem C08_struct_rename_changes_types_ts : forall pre s post s' post' cmds,
+  Pipeline.types_toks (pre ++ s :: post) cmds = Pipeline.types_toks (pre ++ s' :: post') cmds -> Pipeline.s_name s = Pipeline.s_name s'.
+Proof. exact struct_rename_changes_types_ts. Qed.
+Theorem C08_field_key_changes_struct_toks : forall s pre f post f' post' R R',
+  Pipeline.skipped (Pipeline.f_serde f) = false -> Pipeline.skipped (Pipeline.f_serde f') = false ->
+  Pipeline.ty_toks (Pipeline.field_key s f) = [KId (Pipeline.field_key s f)] -> Pipeline.ty_toks (Pipeline.field_key s f') = [KId (Pipeline.field_key s f')] ->
+  Pipeline.struct_toks (with_fields s (pre ++ f :: post)) ++ R = Pipeline.struct_toks (with_fields s (pre ++ f' :: post')) ++ R' ->
+  Pipeline.field_key s f = Pipeline.field_key s f'.
+Proof. exact field_key_changes_struct_toks. Qed.
+Theorem C08_command_rename_changes_commands_ts : forall pre f n post,
+  Pipeline.commands_toks (pre ++ f :: post) = Pipeline.commands_toks (pre ++ renamed n f :: post) -> Pipeline.fn_name f = n.
+Proof. exact command_rename_changes_commands_ts. Qed.
+Theorem C08_event_rename_changes_listener : forall e e' R R',
+  ~ In "'"%char (fst e) -> ~ In "'"%char (fst e') ->
+  Events.listener_text e ++ R = Events.listener_text e' ++ R' -> fst e = fst e'.
+Proof. exact event_rename_changes_listener. Qed.
+Example C08_ex_struct_rename : Pipeline.types_toks [ex_s "User" "user_id"] Pipeline.cmds <> Pipeline.types_toks [ex_s "Account" "user_id"] Pipeline.cmds.
+Proof. exact ex_struct_rename. Qed.
+Example C08_ex_field_rename :
+  Pipeline.struct_toks (with_fields Pipeline.user (firstn 2 (Pipeline.s_fields Pipeline.user) ++ ex_f "first_name" :: [])) <>
+  Pipeline.struct_toks (with_fields Pipeline.user (firstn 2 (Pipeline.s_fields Pipeline.user) ++ ex_f "last_name" :: [])).
+Proof. exact ex_field_rename. Qed.
+Example C08_ex_command_rename :
+  Pipeline.commands_toks ([] ++ ex_c0 :: tl Pipeline.cmds) <> Pipeline.commands_toks ([] ++ renamed (L "fetch_user"%string) ex_c0 :: tl Pipeline.cmds).
+Proof. exact ex_command_rename. Qed.
+Example C08_ex_event_rename :
+  Events.listener_text (L "ping"%string, L "String"%string) ++ [] <> Events.listener_text (L "pong"%string, L "String"%string) ++ [].
+Proof. exact ex_event_rename. Qed.
+
+(* round 7: the run-time oracle c08_ok (extracted; applied to the implementation's missing / different lists) and the
+   boolean all_current are equivalent to the Prop-level statement: success or up to date implies every file of a forced
+   generation is in place *)
+Theorem C08_oracle_reflects : forall w r st,
+  c08_ok r (fst (stale w st)) (snd (stale w st)) = true <-> (r = Success \/ r = UpToDate -> up_to_date_c w st).
+Proof. exact c08_ok_reflects. Qed.
+Theorem C08_all_current_reflects : forall w st, all_current w st = true <-> up_to_date_c w st.
+Proof. exact all_current_reflects. Qed.
+Example C08_ex_oracle : c08_ok UpToDate [] [] = true /\ c08_ok UpToDate [Types] [] = false /\ c08_ok Failure [Types] [] = true.
+Proof. repeat split. Qed.
+
 (* non-vacuity *)
 Example C08_ex_detected :
   let sg := final p0 c0 [Run _ _ _ _ w1 false; SetSrc _ _ _ _ p_field_type; Delete _ _ _ _ Events; Run _ _ _ _ w1 false; SetCfg _ _ _ _ cz] in
@@ -107,3 +221,17 @@ Print Assumptions C08_repaired_events_and_lost_file.
 Print Assumptions C08_repaired_witnesses_detected.
 Print Assumptions C08_refuted_means_unsound.
 Print Assumptions C08_repaired_design_sound.
+Print Assumptions C08_text_function_of_view.
+Print Assumptions C08_types_ts_of_analysis.
+Print Assumptions C08_fp_covers_view.
+Print Assumptions C08_fp_covers_view_no_graph.
+Print Assumptions C08_fp_covers_text.
+Print Assumptions C08_cache_sound_text.
+Print Assumptions C08_cache_sound_text_no_graph.
+Print Assumptions C08_inv_initial_text.
+Print Assumptions C08_struct_rename_changes_types_ts.
+Print Assumptions C08_field_key_changes_struct_toks.
+Print Assumptions C08_command_rename_changes_commands_ts.
+Print Assumptions C08_event_rename_changes_listener.
+Print Assumptions C08_oracle_reflects.
+Print Assumptions C08_all_current_reflects.
